@@ -10,6 +10,7 @@ import Gts.Lemmas.Bounds
 import Gts.Lemmas.Window
 import Gts.Lemmas.SliceWrap
 import Gts.Lemmas.RefInfo
+import Gts.Lemmas.GbSliceRefCompose
 import Gts.Lemmas.Record
 import Gts.Props.C04
 import Gts.Lemmas.MarksDelAll
@@ -1016,6 +1017,42 @@ theorem gen_slice_unparsable_kept (gbf : Gen.GbFields.GenBankFields) (a b : Int)
     | nil => rfl
     | cons r l ih => simp [Bridge.renumberFrom, ih]
   exact this 0 _
+
+/-! ### a slice OF A SLICE (composition; seeded change W35-1) -/
+
+/-- **REFERENCE ranges under a slice of a slice** (model): for non-empty forward windows `[a, b)` and
+`[c, d) ⊆ [0, b − a)`, slicing the references twice is slicing them once to `[a + c, a + d)`: each range is
+clipped to the INNER window of the original record, re-based to it, dropped when disjoint from it, and the
+survivors are renumbered `1..m`; an info that is no range list is kept verbatim by both.  (What the first
+slice writes is read back by the second as the clipped ranges — `sliceRefInfo_reparse`.) -/
+theorem slice_of_slice_refs (pref : Pars.Bytes) (a b c d : Int) (refs : List Ref) (hab : a < b)
+    (hfit : b - a ≤ 9223372036854775807) (hc : 0 ≤ c) (hcd : c < d) (hd : d ≤ b - a) :
+    sliceRefs pref c d (sliceRefs pref a b refs) = sliceRefs pref (a + c) (a + d) refs :=
+  GbSliceRef.sliceRefs_compose pref a b c d refs hab hfit hc hcd hd
+
+-- non-vacuity: `(bases 1 to 10; 12 to 14)` and a verbatim info under [2,8) then [1,4) = [3,6): `(bases 1 to 3)`
+example : ((sliceRefs (Pars.str "bases") 1 4 (sliceRefs (Pars.str "bases") 2 8
+      [⟨7, Pars.str "(bases 1 to 10; 12 to 14)"⟩, ⟨8, Pars.str "(sites)"⟩, ⟨9, Pars.str "(bases 9 to 20)"⟩])).map (·.info)) =
+    [Pars.str "(bases 1 to 3)", Pars.str "(sites)"] ∧ (2 : Int) < 8 ∧ (0 : Int) ≤ 1 ∧ (1 : Int) < 4 ∧ (4 : Int) ≤ 8 - 2 := by
+  decide +kernel
+
+/-- **the same for `GenBankFields.Slice` as written** (regenerated): two applications of the method do not panic;
+the result's references are (number and info) those of ONE application with the window `[a + c, a + d)`, and its
+region is the second window as given, `[c, d)` — the method does not look at the region the value already has. -/
+theorem gen_slice_of_slice_refs (gbf : Gen.GbFields.GenBankFields) (a b c d : Int) (hab : a < b)
+    (hfit : b - a ≤ 9223372036854775807) (hc : 0 ≤ c) (hcd : c < d) (hd : d ≤ b - a) :
+    ∃ g1 g2 g,
+      Gen.GbSlice.genBankFieldsSlice intBytes Bridge.overlapModel Bridge.parseInfoModel gbf a b = some g1 ∧
+      Gen.GbSlice.genBankFieldsSlice intBytes Bridge.overlapModel Bridge.parseInfoModel g1 c d = some g2 ∧
+      Gen.GbSlice.genBankFieldsSlice intBytes Bridge.overlapModel Bridge.parseInfoModel gbf (a + c) (a + d) = some g ∧
+      g2.References.map Bridge.toRef = g.References.map Bridge.toRef ∧ g2.Region = some (c, d) := by
+  refine ⟨_, _, _, Bridge.genBankFieldsSlice_eq gbf a b, Bridge.genBankFieldsSlice_eq _ c d,
+    Bridge.genBankFieldsSlice_eq gbf (a + c) (a + d), ?_, rfl⟩
+  show (Bridge.sliceRefsFull (Gen.GbSlice.moleculeCounter gbf.Molecule) c d
+      (Bridge.sliceRefsFull (Gen.GbSlice.moleculeCounter gbf.Molecule) a b gbf.References)).map Bridge.toRef =
+    (Bridge.sliceRefsFull (Gen.GbSlice.moleculeCounter gbf.Molecule) (a + c) (a + d) gbf.References).map Bridge.toRef
+  rw [Bridge.sliceRefsFull_model, Bridge.sliceRefsFull_model, Bridge.sliceRefsFull_model]
+  exact GbSliceRef.sliceRefs_compose _ a b c d _ hab hfit hc hcd hd
 
 section RecordRefs
 open Gts.GenBank
